@@ -17,7 +17,7 @@ EXPLANATION = (
     'mirrored span), PIVOT (every pivot of every optional field of every class is the edge token of the nearest present '
     'neighbour per the ordered field list), ANCHOR (no insertion at the None anchor into a store the function does not own), '
     'DEL-RANGE (the token range deleted for items[start:stop] is delimited by those items and their neighbours, on the correct '
-    'side for a deletion at the head), ORIENT (thorough; over all valuations of the loop guards the chunk sequence built by '
+    'side for a deletion at the head), ORIENT (over all valuations of the loop guards the chunk sequence built by '
     '_insert_tokens / Repeated.from_children alternates separators and values and ends on the correct side of the anchor). '
     'It does NOT decide the full separator arithmetic for every (index, arity), nor token identity outside the window.')
 
@@ -203,11 +203,8 @@ def run(ctx: RuleContext, p: Program) -> None:
     ctx.require_min('PIVOT', 80)
     rule_anchor(ctx, p, 'ANCHOR')
     rule_del_range(ctx, p, 'DEL-RANGE')
-    try:
-        from . import orient
-        orient.rule_orient(ctx, p, 'ORIENT')
-    except ImportError:
-        pass
+    from . import orient
+    orient.rule_orient(ctx, p, 'ORIENT')
     ctx.not_decided += ['full separator arithmetic for every (index, arity, position)', 'store block boundaries (C07)',
                         'identity of tokens outside the edit window (runtime)']
     ctx.assumptions += ['TokenStore.insert_after/insert_before/remove/splice semantics (C07)']
